@@ -5,7 +5,7 @@ import random
 from harness import core, htmlnorm, treegen, trees, xdoc
 
 GEN = ['gen_tables', 'gen_regex', 'gen_config', 'gen_escapes', 'gen_core']
-THEOREMS = ['C03_indented_code_block', 'C03_indented_code_hypotheses', 'C03_link_scanners_are_the_source', 'C03_fragment_parses', 'C03_fragment_token_tree', 'C03_fragment_hypotheses', 'C03_fragment_fuel_suffices', 'C03_fragment_document',
+THEOREMS = ['C03_setext_heading', 'C03_setext_hypotheses', 'C03_indented_code_block', 'C03_indented_code_hypotheses', 'C03_link_scanners_are_the_source', 'C03_fragment_parses', 'C03_fragment_token_tree', 'C03_fragment_hypotheses', 'C03_fragment_fuel_suffices', 'C03_fragment_document',
             'C03_fragment_html', 'C03_fragment_markdown_html', 'C03_fragment_html_instance', 'C03_fragment_paragraph_lines_instance', 'C03_fragment_headings_instance', 'C03_outline_lists', 'C03_outline_html', 'C03_outline_instance',
             'C03_fragment_document_markdown', 'C03_fragment_document_configs', 'C03_bounded_trees', 'C03_family_is_not_vacuous']
 TRUSTED = ['harness/treegen.py: the tree grammar, the speller (every free choice drawn and counted) and the direct HTML writer - the independent oracle; '
@@ -252,6 +252,26 @@ def code_worker(seed):
     return text, got == want, got, want
 
 
+SETEXT_WORDS = ['A', 'title', '(really)', 'e.g.', '50%', 'x', 'Zed.', '"q"', "it's", 'a-b', 'é', '中文', 'two', 'words,', 'end;', 'c:d', '@m', '}o']
+
+
+def setext_worker(seed):
+    """the class of C03_setext_heading: plain text lines, then an underline of = or - of any length"""
+    import html
+    import mistletoe
+    rng = random.Random(seed)
+    lines = [' '.join(rng.choice(SETEXT_WORDS) for _ in range(rng.randint(1, 6))) for _ in range(rng.randint(1, 4))]
+    c = rng.choice('=-')
+    text = '\n'.join(lines) + '\n' + c * rng.randint(1, 12) + '\n'
+    lv = 1 if c == '=' else 2
+    want = '<h%d>%s</h%d>\n' % (lv, html.escape('\n'.join(lines), quote=False), lv)
+    try:
+        got = mistletoe.markdown(text)
+    except Exception as e:
+        got = 'EXC %s: %s' % (type(e).__name__, e)
+    return text, got == want, got, want
+
+
 def frag_worker(args):
     seed, depth = args
     rng = random.Random(seed)
@@ -353,6 +373,18 @@ def run(ctx, only=None):
         if not ok:
             ctx.failing.append({'interface': 'oracle(indented code)', 'input': {'text': text, 'code_seed': seed},
                                 'what': 'lines indented by four spaces are not one code block holding exactly those lines', 'observed': got, 'expected': want, 'kf': None})
+    # setext headings (C03_setext_heading), on the implementation
+    sjobs = [rng.randint(0, 2 ** 40) for _ in range(1500 if ctx.quick() else 30000)]
+    with mp.Pool(core.NPROC) as pool:
+        sres = pool.map(setext_worker, sjobs, chunksize=100)
+    for seed, (text, ok, got, want) in zip(sjobs, sres):
+        ctx.count('evaluations')
+        ctx.count('setext_headings')
+        if len(ftexts) < (1300 if ctx.quick() else 18000):
+            ftexts.append(text)
+        if not ok:
+            ctx.failing.append({'interface': 'oracle(setext heading)', 'input': {'text': text, 'setext_seed': seed},
+                                'what': 'plain lines followed by an underline are not one setext heading holding the lines', 'observed': got, 'expected': want, 'kf': None})
     xdoc.run(ctx, texts + ftexts, cfgs=(0,))
 
 
